@@ -626,10 +626,10 @@ def safediv_(*args):
     onzero = None if len(args) ==2 else parseExpression(args[2])
 
     if onzero is not None:
-        return "(( "+ str(onzero) + ")" + ' if (' + str(denominator) + ') == 0 else (' + str(nominator) + ' / ' + str(denominator) + "))"
+        return "(( "+ str(onzero) + ")" + ' if (' + str(denominator) + ') == 0 else ((' + str(nominator) + ') / (' + str(denominator) + ")))"
     else:
-        return "((0)" + ' if (' + str(denominator) + ') == 0 else (' + str(nominator) + ' / ' + str(
-            denominator) + "))"
+        return "((0)" + ' if (' + str(denominator) + ') == 0 else ((' + str(nominator) + ') / (' + str(
+            denominator) + ")))"
 
 def history_(*args):
     args = remove_nesting(args)
@@ -702,7 +702,7 @@ def percent_(*args):
             elem.remove(",")
         except:
             pass
-    return "({}*100)".format(parseExpression(args[0]))
+    return "(({})*100)".format(parseExpression(args[0]))
 
 def counter_(*args):
     args = remove_nesting(args)
@@ -883,7 +883,7 @@ builtins = {
 
     'rootn' : lambda *args: "( self.rootn({}, {}) )".format(parseExpression(remove_nesting(args)[0]) ,parseExpression(remove_nesting(args)[1] )),
 
-    'sqrt': lambda *args: "({} ** 0.5 )".format(parseExpression(remove_nesting(args))),
+    'sqrt': lambda *args: "(({}) ** 0.5 )".format(parseExpression(remove_nesting(args))),
 
     'log10': lambda *args: "(np.log10({}))".format(parseExpression(remove_nesting(args))),
 
